@@ -45,7 +45,19 @@ def add2d(x):
 
 
 defvjp(det, lambda ans, x: lambda g: add2d(g) * add2d(ans) * T(inv(x)))
-defvjp(slogdet, lambda ans, x: lambda g: add2d(g[1]) * T(inv(x)))
+
+
+def grad_slogdet(ans, x):
+    def vjp(g):
+        # d log|det x| = Re tr(inv(x) dx); for a complex matrix the sign moves too:
+        # d sign = sign * 1j * Im tr(inv(x) dx)
+        gamma = g[1] + 1j * anp.imag(g[0] * ans[0]) if anp.iscomplexobj(x) else g[1]
+        return add2d(gamma) * T(inv(x))
+
+    return vjp
+
+
+defvjp(slogdet, grad_slogdet)
 
 
 def grad_inv(ans, x):
